@@ -352,28 +352,28 @@ class Engine:
         self.unsupported(node, "reference of %r" % (v,))
 
     def get_field(self, ref, name):
-        return self.comp("f:" + name)[ref]
+        return read_array(self.comp("f:" + name), ref)
 
     def set_field(self, ref, name, term):
         c = "f:" + name
         self.set_comp(c, z3.Store(self.comp(c), ref, term), ref)
 
     def list_of(self, v):
-        return self.comp("$list")[self.refof(v)]
+        return read_array(self.comp("$list"), self.refof(v))
 
     def set_list(self, v, seq):
         r = self.refof(v)
         self.set_comp("$list", z3.Store(self.comp("$list"), r, seq), r)
 
     def setmap_of(self, v):
-        return self.comp("$set")[self.refof(v)]
+        return read_array(self.comp("$set"), self.refof(v))
 
     def set_setmap(self, v, m):
         r = self.refof(v)
         self.set_comp("$set", z3.Store(self.comp("$set"), r, m), r)
 
     def dict_of(self, v):
-        return self.comp("$dict")[self.refof(v)]
+        return read_array(self.comp("$dict"), self.refof(v))
 
     def set_dict(self, v, m):
         r = self.refof(v)
@@ -485,7 +485,7 @@ class Engine:
                 return self.setmap_of(v) != so.EMPTY_SET
             if kind == "dict":
                 return self.dict_of(v) != so.EMPTY_KW
-            if kind == "tuple":
+            if kind in ("tuple", "ftuple"):
                 return z3.Length(Val.elems(t)) > 0
             if kind == "opt":
                 inner = SV(t, arg)
@@ -556,10 +556,13 @@ class Engine:
                 kind, arg = parse_tag(arg)
             if kind == "list":
                 return self.list_of(v)
-            if kind == "tuple":
+            if kind in ("tuple", "ftuple"):
                 return Val.elems(v.term)
             if kind in ("seq", "iter"):
                 return Val.elems(v.term)
+            t = z3.simplify(v.term)
+            if z3.is_app(t) and t.decl().name() == "tup":
+                return t.arg(0)          # statically a tuple value
         self.unsupported(node, "sequence view of %r" % (v,))
 
     def elem_tag(self, v):
@@ -567,7 +570,7 @@ class Engine:
             return v.elem
         if isinstance(v, SV):
             kind, arg = parse_tag(v.ty)
-            if kind in ("list", "tuple", "seq", "iter", "set", "frozenset", "anyset"):
+            if kind in ("list", "tuple", "ftuple", "seq", "iter", "set", "frozenset", "anyset"):
                 return arg
         return None
 
@@ -638,7 +641,7 @@ class Engine:
                     return tests[name]
                 return z3.And(Val.is_ref(t), so.typeof(Val.r(t)) == self.cids.cid(name))
             cid = self.class_id(clsval.info if clsval.info is not None else clsval.ext)
-            if kind in ("str", "bytes", "int", "bool", "none", "tuple"):
+            if kind in ("str", "bytes", "int", "bool", "none", "tuple", "ftuple"):
                 return z3.BoolVal(False)
             return z3.And(Val.is_ref(v.term), so.subclass(so.typeof(Val.r(v.term)), cid))
         if isinstance(v, (FuncV, BoundV)):
@@ -646,6 +649,20 @@ class Engine:
         if isinstance(v, TupV):
             return z3.BoolVal(name == "tuple")
         self.unsupported(node, "isinstance of %r" % (v,))
+
+
+def read_array(arr, idx):
+    """arr[idx], looking through Store chains whose indices differ from idx by a known non-zero integer"""
+    a = arr
+    while z3.is_app(a) and a.decl().kind() == z3.Z3_OP_STORE and a.arg(1).sort() == I:
+        d = z3.simplify(a.arg(1) - idx)
+        if z3.is_int_value(d):
+            if d.as_long() == 0:
+                return a.arg(2)
+            a = a.arg(0)
+            continue
+        break
+    return a[idx]
 
 
 def captured_name(f):
